@@ -764,6 +764,26 @@ pub fn run_rt(seed: u64, shard: u64, nshards: u64, rounds: u64) -> Out {
             Err(_) => v.push(("round-trip".to_string(), "job failed to round-trip".to_string())),
         }
     }
+    // job envelopes with keys of every small encoded length (0 bytes included: (), empty string, empty vector)
+    {
+        let env = |v: &mut Vec<(String, String)>, what: &str, r: Result<bool, ractor::message::BoxedDowncastErr>| match r {
+            Ok(true) => {}
+            Ok(false) => v.push(("round-trip".to_string(), format!("job with {what} key decoded to a different job"))),
+            Err(_) => v.push(("round-trip".to_string(), format!("job with {what} key failed to round-trip"))),
+        };
+        n += 1;
+        let j = ractor::factory::Job::with_options((), DMsg::Unit, Default::default());
+        env(&mut v, "a unit", j.serialize().and_then(ractor::factory::Job::<(), DMsg>::deserialize).map(|b| dmsg_desc(&b.msg) == "Unit"));
+        for len in 0..4usize {
+            n += 2;
+            let key: String = "kéy".chars().cycle().take(len).collect();
+            let j = ractor::factory::Job::with_options(key.clone(), DMsg::Tup(1, "s".into()), Default::default());
+            env(&mut v, &format!("a {len}-char string"), j.serialize().and_then(ractor::factory::Job::<String, DMsg>::deserialize).map(|b| b.key == key));
+            let key: Vec<u8> = (0..len as u8).collect();
+            let j = ractor::factory::Job::with_options(key.clone(), DMsg::Unit, Default::default());
+            env(&mut v, &format!("a {len}-byte vector"), j.serialize().and_then(ractor::factory::Job::<Vec<u8>, DMsg>::deserialize).map(|b| b.key == key));
+        }
+    }
     for (loc, msg) in crate::take_foreign_panics() {
         v.push(("panic".into(), format!("{loc}: {msg}")));
     }
